@@ -1077,3 +1077,51 @@ func (c *Ctx) mayAccept(p *Program, rule, what string, f *ssa.Function, args map
 	}
 	c.bad(rule, construct, "no exit reports success for these arguments: a legal value is refused", p.fnPos(f))
 }
+
+// sinkAndMask: the mask operand of every `x[i] &= mask` statement (a store of load(addr) & mask back to addr).
+func sinkAndMask() depSink {
+	return depSink{desc: "mask of an `&=` statement", get: func(p *Program, d *depFn) (bits, int) {
+		var out bits
+		n := 0
+		for _, b := range d.f.Blocks {
+			for _, in := range b.Instrs {
+				st, ok := in.(*ssa.Store)
+				if !ok {
+					continue
+				}
+				bo, ok := st.Val.(*ssa.BinOp)
+				if !ok || bo.Op != token.AND {
+					continue
+				}
+				for i, side := range []ssa.Value{bo.X, bo.Y} {
+					ld, ok := side.(*ssa.UnOp)
+					if !ok || ld.Op != token.MUL || (ld.X != st.Addr && descVal(ld.X) != descVal(st.Addr)) {
+						continue
+					}
+					out.union(d.fullDep([]ssa.Value{bo.Y, bo.X}[i]))
+					n++
+				}
+			}
+		}
+		return out, n
+	}}
+}
+
+func init() {
+	for prop, fns := range map[string][][2]string{
+		"C17": {{"tss/rsa/internal/pss", "emsaPSSEncode"}},
+		"C18": {{"blindsign/blindrsa/internal/common", "emsaPSSEncode"}, {"blindsign/blindrsa/internal/common", "emsaPSSVerify"}},
+	} {
+		prop, fns := prop, fns
+		prev := registry[prop]
+		registry[prop] = func(c *Ctx) {
+			prev(c)
+			if p := c.Prog("amd64"); p != nil {
+				c.Clauses = append(c.Clauses, prop+".pssmask: the mask that clears the leftmost bits of the PSS encoding is computed from emBits (RFC 8017 9.1.1 step 11: 8*emLen - emBits bits; a constant is right only for moduli of 8k bits)")
+				for _, fn := range fns {
+					c.depRule(p, prop+".pssmask", "the mask clearing the leftmost bits depends on emBits", p.Func(fn[0], "", fn[1]), sinkAndMask(), "param:emBits")
+				}
+			}
+		}
+	}
+}
